@@ -6,7 +6,7 @@ environment of executors (what `Bridge` hides), used by C01–C04.
 Controller side, modelled literally (one Lean function per Python function):
   `initialize`, `build_assignment` (incl. the "preparing" hack), the pops done by
   `_assignment_heuristic` after each yield, `act`, `plan`/`_set_preparing_at`, `flush_queues`,
-  `notify` (`consider_fetch`, `consider_computable`, completion, `consider_purge`),
+  `notify` (`consider_fetch`, `consider_computable`, `all_outputs_published`, completion, `consider_purge`),
   `has_computable`, `has_awaitable`.
 Abstracted (an *oracle argument*, validated by the model, supplied by the harness from what
 the real code chose): which (idle worker, computable task) pairs `assign` picks in a round and
@@ -66,7 +66,6 @@ def Job.taskIds (j : Job) : List Task := List.range j.tasks.length
 /-- `edge_o[ds]`: the tasks consuming `ds`. -/
 def Job.consumers (j : Job) (ds : Ds) : List Task := j.taskIds.filter (fun t => (j.inputs t).contains ds)
 def Job.outputsOf (j : Job) (t : Task) : List Ds := (List.range (j.nOut t)).map (fun k => ⟨t, k⟩)
-def Job.isLast (j : Job) (ds : Ds) : Bool := ds.out + 1 == j.nOut ds.task
 
 def Cluster.ids (c : Cluster) : List Worker := c.workers.map (·.1)
 def Cluster.hasGpu (c : Cluster) (w : Worker) : Bool := c.workers.any (fun p => p.1 == w && p.2)
@@ -106,6 +105,7 @@ structure Ctl where
   dsHost : Ds → Host → Status       -- state.ds2host
   workerDs : Worker → Ds → Status   -- state.worker2ds (ds2worker mirrors it)
   remaining : Nat                   -- state.remaining
+  published : Ds → Bool             -- state.published_outputs[ds.task] ∋ ds.output
   -- ghosts (not in the implementation)
   dispatched : Task → Nat           -- number of task_sequence commands naming t
   doneC : Task → Bool               -- completion of t has been notified
@@ -131,6 +131,7 @@ def initCtl (j : Job) (cl : Cluster) : Ctl where
   dsHost := fun _ _ => .missing
   workerDs := fun _ _ => .missing
   remaining := j.tasks.length
+  published := fun _ => false
   dispatched := fun _ => 0
   doneC := fun _ => false
   announced := fun _ => false
@@ -186,6 +187,14 @@ def markAvailable (c : Ctl) (h : Host) (ds : Ds) : Ctl :=
            dsHost := upd c.dsHost ds (upd (c.dsHost ds) h .available),
            announced := upd c.announced ds true }
 
+/-- `controller.notify.all_outputs_published`, the recording part: the worker's notice of `ds` has been processed -/
+def markPublished (c : Ctl) (ds : Ds) : Ctl := { c with published := upd c.published ds true }
+
+/-- `controller.notify.all_outputs_published`, the test `len(published) == len(output_schema)`: the notices of ALL outputs
+of `t` have been processed, in whatever order they arrived (`published_outputs[t]` only ever holds declared outputs of `t`,
+`InvP.pub_ran`, so the two sets have the same size iff they are equal) -/
+def Ctl.allPublished (j : Job) (c : Ctl) (t : Task) : Bool := (j.outputsOf t).all c.published
+
 /-- `controller.notify.notify`, one event -/
 def notifyEvent (j : Job) (c : Ctl) : Event → Except Err Ctl
   | .payload ds v => .ok { c with outputs := upd c.outputs ds (some v) }
@@ -197,7 +206,8 @@ def notifyEvent (j : Job) (c : Ctl) : Event → Except Err Ctl
     let c := markAvailable c w.host ds
     let c := considerFetch j c ds w.host
     let c := considerComputable c ds
-    if j.isLast ds then
+    let c := markPublished c ds
+    if c.allPublished j ds.task then
       match completeInputs j ds.task c (j.inputs ds.task) with
       | .error e => .error e
       | .ok c =>
